@@ -21,19 +21,19 @@ structure Opts where
   keepHj : Bool
   recovery : Bool
 
-def reqOf (o : Opts) (tok : String) : Req × Bool × Bool :=
+/-- request token → (`Req`, the user keeps the hijack conn (KeepHijackedConns and never closes it)) -/
+def reqOf (o : Opts) (tok : String) : Req × Bool :=
   let cs := tok.toList
   let kind := cs.headD 'g'
   let fl := cs.drop 1
   let has (c : Char) := fl.contains c
   let readable := kind != 'b' && kind != 't' && (o.stream || kind != 'K')
   let streamed := o.stream && (kind == 's' || kind == 'L' || kind == 'k' || kind == 'K' || kind == 'e')
+  -- `q`: the hijack handler closes the conn it was given once, `Q`: three times (regression for 4f1f5ed)
+  let closes := if has 'Q' then 3 else if has 'q' then 1 else 0
   ({ readable := readable, streamed := streamed, skipErr := kind == 'K', exile := has 'x',
-     panics := has 'p' && !o.recovery, failWrite := has 'w', hijack := has 'h', close := has 'c' },
-   o.keepHj && !has 'q' && !has 'Q',
-   -- `Q`: the user's hijack handler closes the hijacked conn three times; with KeepHijackedConns the second Close
-   -- releases the object a second time and the third one finds `Conn == nil` (known finding hijackconn-double-close)
-   o.keepHj && has 'Q')
+     panics := has 'p' && !o.recovery, failWrite := has 'w', hijack := has 'h', closes := closes, close := has 'c' },
+   o.keepHj && closes == 0)
 
 structure Sim where
   s : State := {}
@@ -63,14 +63,6 @@ def Sim.step (m : Sim) (e : Ev) : Sim := { m with s := PoolOwn.step m.s e }
 /-- Walk the events of one connection; `toks`: the implementation's `H`/`J` tokens of this connection. -/
 def walk (m : Sim) (ctxTok : String) (dbl keep : Bool) : List Ev → List String → Sim × List String
   | [], toks => (m, toks)
-  | .hijackEnd c keep :: es, toks =>
-    -- a user action outside `Serve` (not an event of the state machine): the second `Close` of a kept conn
-    let x := ((m.s.conns c).bind (·.hj))
-    let m := m.step (.hijackEnd c keep)
-    let m := match dbl, x with
-      | true, some x => { m with s := m.s.put .hjconn x }
-      | _, _ => m
-    walk m ctxTok dbl keep es toks
   | .read c true _ :: es, toks =>
     match toks with
     | "H" :: cx :: st :: rest =>
@@ -95,11 +87,7 @@ def walk (m : Sim) (ctxTok : String) (dbl keep : Bool) : List Ev → List String
       let m := (m.step (.after c .hijack i)).emit ["J", t, dang]
       let m := if m.kept.contains h then { m with clash := true } else m
       let m := if keep then { m with kept := h :: m.kept } else m
-      if dbl then
-        match rest with
-        | "QP" :: rest => walk (m.emit ["QP"]) ctxTok dbl keep es rest
-        | _ => walk (m.emit ["QP"]) ctxTok dbl keep es rest
-      else walk m ctxTok dbl keep es rest
+      walk m ctxTok dbl keep es rest
     | _ => walk ((m.step (.after c .hijack (m.s.pool .hjconn).length)).emit ["J", "!missing", "-"]) ctxTok dbl keep es toks
   | e :: es, toks => walk (m.step e) ctxTok dbl keep es toks
 
@@ -133,12 +121,12 @@ def conns (o : Opts) : Nat → Nat → List String → List String → Sim → L
     | "C" :: cx :: _pan :: rest =>
       let (mine, rest) := splitConn rest
       let hjReq := reqs.find? (fun r => r.1.readable && r.1.hijack)
-      let keep := (hjReq.map (·.2.1)).getD false
-      let dbl := (hjReq.map (·.2.2)).getD false
-      let evs0 := connEvents c o.idle0 keep (reqs.map (·.1))
+      let keep := (hjReq.map (·.2)).getD false
+      let dbl := (hjReq.map (fun r => decide (r.1.closes ≥ 2))).getD false
+      let evs0 := connEvents c o.idle0 (reqs.map (·.1))
       let evs := evs0.filter (fun e => match e with | .accept _ _ => false | _ => true)
-      -- the double Close only happens if the script gets as far as the hijack
-      let dbl := dbl && evs.any (fun e => match e with | .hijackEnd _ _ => true | _ => false)
+      -- (tag only) the repeated Close only happens if the script gets as far as the hijack
+      let dbl := dbl && evs.any (fun e => match e with | .hijackEnd _ => true | _ => false)
       let (m, i, t) := m.choose .ctx cx
       let m := m.step (.accept c i)
       let code := endCode evs m.s c
@@ -192,7 +180,7 @@ def own (a : List String) (impl : List String) : Option Result := do
     let o : Opts := { stream := st == "1", idle0 := i0 == "1", keepHj := kh == "1", recovery := rc == "1" }
     let k ← k.toNat?
     let nc ← nc.toNat?
-    let (m, impl', codes) ← conns o nc 0 rest impl {} []
+    let (m, impl', codes) ← conns o nc 0 rest impl { s := initK o.keepHj } []
     match impl' with
     | "U" :: k' :: okN :: utoks =>
       let m := m.emit ["U", toString k, toString k]
@@ -211,10 +199,7 @@ def own (a : List String) (impl : List String) : Option Result := do
       let _ := cs
       let dedup := codes.foldl (fun acc x => if acc.contains x then acc else acc ++ [x]) []
       let sorted := (dedup.toArray.qsort (· < ·)).toList
-      -- known finding: only the hijack conn pool has a duplicate, and a script with a double Close explains it
-      let cls := if !spec && !d1 && !d2 && (d3 || m.clash) && k' == toString k && okN == toString k && distinct
-                    && codes.any (fun c => c.endsWith "Q") then "hijackconn-double-close" else ""
-      pure { out := m.out.reverse, spec := spec, cls := cls,
+      pure { out := m.out.reverse, spec := spec,
              specNote := "no identity twice in a drained pool; no hijack conn handed out while a user keeps it; k concurrent uploads: distinct contexts, distinct streams, own bodies",
              tag := "own:" ++ st ++ i0 ++ kh ++ rc ++ ":" ++ ",".intercalate sorted }
     | _ => none
